@@ -23,6 +23,20 @@ def lemma_fact(ctx: Ctx, name: str):
     return z3.ForAll(consts, body)
 
 
+def lemma_instance(ctx: Ctx, name: str, vals):
+    """ground instance requires ==> ensures of a (separately proved) lemma"""
+    from .kinds import coerce
+
+    lem = api.LEMMAS[name]
+    if len(vals) != len(lem.vars):
+        raise ValueError(f"lemma {name} takes {len(lem.vars)} arguments")
+    vs = {n: coerce(v, k) for (n, k), v in zip(lem.vars.items(), vals)}
+    env = Env(vs, {})
+    hyp = [Pure(ctx, env).b(_parse_spec(r)) for r in lem.requires]
+    con = [Pure(ctx, env).b(_parse_spec(e)) for e in lem.ensures]
+    return z3.Implies(z3.And(*hyp), z3.And(*con)) if hyp else z3.And(*con)
+
+
 def lemma_obligations(ctx: Ctx, lem: api.Lemma):
     vs = {n: fresh(k, n) for n, k in lem.vars.items()}
     env = Env(vs, {})
@@ -47,6 +61,9 @@ def lemma_obligations(ctx: Ctx, lem: api.Lemma):
     if not ctx.expand_quant:
         for u in lem.uses:
             pc.append(lemma_fact(ctx, u))
+    for cname, cargs in lem.calls:
+        vals = [Pure(ctx, env).ev(_parse_spec(a)) for a in cargs]
+        pc.append(lemma_instance(ctx, cname, vals))
     for h in lem.hints:
         pc.append(Pure(ctx, env).b(_parse_spec(h)))
     obls = [Obl(f"lemma:{lem.name}/cover:requires-satisfiable", 0, tuple(pc), z3.BoolVal(True), "cover")]
